@@ -515,6 +515,25 @@ def oracle(ctx: Ctx, Time, labels, src, conv):
                 k = next((i for i in range(min(n, len(p1))) if p1[i] != r1[perm[i]] or p2[i] != r2[perm[i]]), 0)
                 ctx.violate(f"alignment:{a}->{b}", "converting a permuted array is not the permutation of the converted array",
                             {"a": a, "b": b, "element": k, "jd1": float(a1[perm[k]]), "jd2": float(a2[perm[k]])})
+            # short arrays cut out of the label set, both ends the same epoch and anything in between (an implementation that
+            # looks at part of an array - its ends, its first element, its day parts - to decide for all of it shows here):
+            # the conversion of a sub-array is the sub-array of the conversion
+            for _k in range(ctx.budget(6, 40)):
+                e = rng.randrange(n)
+                sub = [e] + [rng.randrange(n) for _ in range(rng.randint(1, 8))] + [e]
+                try:
+                    tsub = Time(a1[sub], val2=a2[sub], fmt="jd", scale=a)
+                    q1, q2 = parts(getattr(tsub, b))
+                except Exception as ex:
+                    ctx.violate(f"subarray-raises:{a}->{b}", f"{type(ex).__name__}: {ex}", {"a": a, "b": b})
+                    break
+                ctx.count("oracle-subarray")
+                if len(q1) != len(sub) or not (np.array_equal(q1, r1[sub]) and np.array_equal(q2, r2[sub])):
+                    k = next((i for i in range(min(len(sub), len(q1))) if q1[i] != r1[sub[i]] or q2[i] != r2[sub[i]]), 0)
+                    ctx.violate(f"alignment-subarray:{a}->{b}", "converting a sub-array (same epoch at both ends) is not the sub-array of the converted array",
+                                {"a": a, "b": b, "element": k, "jd1": float(a1[sub[k]]), "jd2": float(a2[sub[k]]),
+                                 "array_jd1": [float(x) for x in a1[sub]], "array_jd2": [float(x) for x in a2[sub]]})
+                    break
             for i in idxs:
                 for shape in ("scalar", "len1"):
                     try:
@@ -599,6 +618,13 @@ def replay(payload):
     Time = _imp()
     c = payload.get("replay", {})
     print(json.dumps(payload, indent=1)[:1500])
+    if "array_jd1" in c and "a" in c and "b" in c:
+        ta = Time(np.array(c["array_jd1"]), val2=np.array(c["array_jd2"]), fmt="jd", scale=c["a"])
+        ra = getattr(ta, c["b"])
+        k = c.get("element", 0)
+        ts = Time(c["array_jd1"][k], val2=c["array_jd2"][k], fmt="jd", scale=c["a"])
+        rs_ = getattr(ts, c["b"])
+        print(f"{c['a']}->{c['b']} element {k} inside the array: jd1={float(ra.jd1[k])!r} jd2={float(ra.jd2[k])!r}; alone: jd1={float(rs_.jd1)!r} jd2={float(rs_.jd2)!r}")
     if "jd1" in c and "a" in c:
         t = Time(c["jd1"], val2=c["jd2"], fmt="jd", scale=c["a"])
         for b in SCALES:
